@@ -346,3 +346,61 @@ Definition call_cover {L A : Type} (leqb : L -> L -> bool) (eqb ltb : A -> A -> 
                  | DF cols r => DF (remove_col i cols) (feature_cover i idxs r)
                  end)
   end.
+
+(** * the instance state of an injector: [self._columns]
+    [_preprocess] stores the column labels of a DataFrame and resets the attribute to [None] for an
+    ndarray (before anything can raise); [_postprocess] reads it to restore the container kind.
+    The working copy of FeatureCoverInjector is [pd.DataFrame(copy, columns=self._columns)]. *)
+Definition istate (L : Type) := option (list L).
+
+Definition preprocess {L A : Type} (st : istate L) (fr : frame L A) : istate L * list (list A) :=
+  match fr with
+  | Arr r => (None, r)
+  | DF cols r => (Some cols, r)
+  end.
+Definition postprocess {L A : Type} (st : istate L) (r : list (list A)) : frame L A :=
+  match st with
+  | Some cols => DF cols r
+  | None => Arr r
+  end.
+(** FeatureCover: a DataFrame keeps its own (reduced) labels, without stored labels [to_numpy()] *)
+Definition postprocess_cover {L A : Type} (st : istate L) (i : Z) (r : list (list A)) : frame L A :=
+  match st with
+  | Some cols => DF (remove_col i cols) r
+  | None => Arr r
+  end.
+
+(** the calls on an instance whose attribute holds [st]: new attribute value and result *)
+Definition call1_st {L A : Type} (leqb : L -> L -> bool) (st : istate L) (fr : frame L A)
+  (c : colref L) (f : Z -> list (list A) -> option (list (list A)))
+  : istate L * option (frame L A) :=
+  let '(st', rows) := preprocess st fr in
+  (st', match resolve leqb fr c with
+        | None => None
+        | Some i => match f i rows with None => None | Some r => Some (postprocess st' r) end
+        end).
+Definition call_swap_st {L A : Type} (leqb : L -> L -> bool) (st : istate L) (fr : frame L A)
+  (from to : Z) (c1 c2 : colref L) : istate L * option (frame L A) :=
+  let '(st', rows) := preprocess st fr in
+  (st', match resolve leqb fr c1, resolve leqb fr c2 with
+        | Some i1, Some i2 => Some (postprocess st' (feature_swap from to i1 i2 rows))
+        | _, _ => None
+        end).
+Definition call_cover_st {L A : Type} (leqb : L -> L -> bool) (eqb ltb : A -> A -> bool) (dflt : A)
+  (st : istate L) (fr : frame L A) (c : colref L) (sample_size : Z) (idxs : list Z)
+  : istate L * option (frame L A) :=
+  let '(st', rows) := preprocess st fr in
+  (st', match resolve leqb fr c with
+        | None => None
+        | Some i =>
+            if cover_raises eqb ltb dflt i sample_size rows then None
+            else Some (postprocess_cover st' i (feature_cover i idxs rows))
+        end).
+
+(** a sequence of calls on one instance *)
+Fixpoint run_calls {L A X : Type} (step : istate L -> X -> istate L * option (frame L A))
+  (st : istate L) (xs : list X) : list (istate L * option (frame L A)) :=
+  match xs with
+  | [] => []
+  | x :: t => let r := step st x in r :: run_calls step (fst r) t
+  end.
